@@ -106,7 +106,9 @@ def gen(seed: int, tier: str) -> dict[str, Any]:
            "route_back": rng.random() < 0.2, "batch": 1 if rng.random() < 0.8 else 3, "horizon": horizon,
            # a one-shot listener ("wait until connected once") registered between the two recording callbacks: it
            # unregisters itself from inside its notification
-           "oneshot_cb": rng.choice([None, None, "CONNECTED", "DISCONNECTED", "CONNECTING"])}
+           "oneshot_cb": rng.choice([None, None, "CONNECTED", "DISCONNECTED", "CONNECTING"]),
+           # a listener registered between the two recording callbacks raises when it hears of this state
+           "raising_cb": rng.choice([None, None, None, "CONNECTED", "DISCONNECTED", "CONNECTING"])}
     if rng.random() < 0.15 and ops:
         # threaded mode seen from the connection's side: state reports are handed to the main loop with
         # call_soon_threadsafe and applied there in order - later, while the main loop is busy (windows around the faults)
@@ -212,7 +214,15 @@ def run(plan: dict[str, Any]) -> dict[str, Any]:
         busy = None
         if cfg.get("main_loop_busy"):
             busy = BusyMainLoop(loop, R)
-            xknx.connection_manager._main_loop = busy      # what ConnectionManager.register_loop() sets in threaded mode
+            # ConnectionManager.register_loop() - what threaded mode calls - registers "the running loop": let it find
+            # the stand-in there (public entry point; no private attribute of the manager is touched)
+            import xknx.core.connection_manager as _cm
+            _real = _cm.asyncio.get_running_loop
+            _cm.asyncio.get_running_loop = lambda: busy
+            try:
+                await xknx.connection_manager.register_loop()
+            finally:
+                _cm.asyncio.get_running_loop = _real
         xknx.connection_manager.register_connection_state_changed_cb(mk_cb(0, xknx))
         if cfg.get("oneshot_cb"):
             unreg: list[Any] = [None]
@@ -224,6 +234,12 @@ def run(plan: dict[str, Any]) -> dict[str, Any]:
                     R.extra_faults["one_shot_state_callback_unregistered_itself"] += 1
 
             unreg[0] = xknx.connection_manager.register_connection_state_changed_cb(oneshot)
+        if cfg.get("raising_cb"):
+            def raising(state):
+                if state.name == cfg["raising_cb"]:
+                    R.extra_faults["state_callback_raised"] += 1
+                    raise RuntimeError("scripted failure of a connection state listener")
+            xknx.connection_manager.register_connection_state_changed_cb(raising)
         xknx.connection_manager.register_connection_state_changed_cb(mk_cb(1, xknx))
         try:
             if tunnel is not None:
